@@ -199,8 +199,9 @@ def run(prog):
                         if cs.bb in body:
                             continue
                         for a in cs.args:
-                            if strip(a) == mu or mu in set(mir.subterms(a)):
-                                used = True
+                            a0 = strip(a)
+                            if a0 == mu or mu in set(mir.subterms(a)) or a0 == ("mutref", v) or ("mutref", v) in set(mir.subterms(a)):
+                                used = True      # read, or handed over by &mut (`rest.append(&mut finished)`)
                     nm = g.local_name(v) or "_%d" % v
                     out.append(inst("NC", "%s:carried@%s" % (fn.npath, nm), OK if used else VIOLATION, g, cs0.line,
                                     "what the loop leaves in `%s` goes into the result" % nm if used else
